@@ -1689,3 +1689,51 @@ mut("c18-stop-reads-registry-before-join", ["C18", "C11"], [(MG, '''	close(m.qui
 	m.wg.Wait()
 ''', '''	close(m.quit)
 ''')], ["C18.R5", "C11.R1"])
+
+# ---- rules added after the sixth batch of independently seeded changes ----
+mut("c10-dequeue-before-hash-lookup", ["C10"], [(US, '''		hash, err := s.cfg.GetBlockHash(int64(height))
+		if err != nil {
+			return reporter.FailRemaining(err)
+		}
+
+		// If there are any new requests that can safely be added to this batch,
+		// then try and fetch them.
+		newReqs := s.dequeueAtHeight(height)
+''', '''		newReqs := s.dequeueAtHeight(height)
+
+		hash, err := s.cfg.GetBlockHash(int64(height))
+		if err != nil {
+			return reporter.FailRemaining(err)
+		}
+''')], ["C10.O1"])
+mut("c12-handover-without-exit-arm", ["C12"], [(WM, '''				// Remove workers no longer active.
+				case <-r.onExit:
+					delete(workers, p)
+					continue
+
+''', '')], ["C12.O4"])
+mut("c03-filter-rollback-decided-once", ["C03", "C04"], [(BM, '''	for uint32(bs.Height) > height {
+		header, headerHeight, err := b.cfg.BlockHeaders.FetchHeader(&bs.Hash)''', '''	caughtUp := uint32(bs.Height) <= regHeight
+	for uint32(bs.Height) > height {
+		header, headerHeight, err := b.cfg.BlockHeaders.FetchHeader(&bs.Hash)'''), (BM, "		if uint32(bs.Height) <= regHeight {\n			newFilterTip, err := b.cfg.RegFilterHeaders.RollbackLastBlock(newTip)", "		if caughtUp {\n			newFilterTip, err := b.cfg.RegFilterHeaders.RollbackLastBlock(newTip)")], ["C03.O2", "C04.O5"])
+mut("c07-short-range-read-accepted", ["C07"], [(HF, '''	_, err := f.ReadAt(rawHeaderBytes, int64(seekDistance))
+	if err != nil {
+		return nil, err
+	}
+
+	return bytes.NewReader(rawHeaderBytes), nil''', '''	n, err := f.ReadAt(rawHeaderBytes, int64(seekDistance))
+	if err != nil && err != io.EOF {
+		return nil, err
+	}
+
+	return bytes.NewReader(rawHeaderBytes[:n]), nil''')], ["C07.O3"])
+mut("c03-checkpoints-compared-up-to-shortest", ["C03"], [(BM, "	maxLen := 0\n	for _, checkpoints := range cp {\n		if len(checkpoints) > maxLen {\n			maxLen = len(checkpoints)", "	maxLen := 1 << 30\n	for _, checkpoints := range cp {\n		if len(checkpoints) < maxLen {\n			maxLen = len(checkpoints)")], ["C03.V3"])
+mut("c19-fallible-step-between-commit-and-events", ["C19"], [(BM, '''	// Notify subscribers, and also update the filter header progress
+	// logger at the same time.
+	for i, header := range matchingBlockHeaders {''', '''	if _, _, err := store.ChainTip(); err != nil {
+		return nil, 0, err
+	}
+
+	// Notify subscribers, and also update the filter header progress
+	// logger at the same time.
+	for i, header := range matchingBlockHeaders {''')], ["C19.O5"])
